@@ -1,6 +1,6 @@
 """C13 - whitespace stripping acts as if the stripped text nodes were not in the source.
 GEN: seeded documents with whitespace-only text in every position class x strip/preserve declaration lists
-     (*, QName, conflicting, imported with lower precedence) x observation expressions run from every element.
+     (*, QName, conflicting, spread over the import tree main > B > A > A1) x observation expressions run from every element.
 RUN: harness/xslt.cpp with the declarations; observations through xsl:variable select events, xsl:copy-of through the result tree.
 TV : Trace_C13.tla evaluates each observation with XPathSem on the PHYSICALLY stripped document (Strip!RemoveNodes)."""
 import os, random, json, subprocess
@@ -42,13 +42,25 @@ def gen_doc(rng):
     return xdm.R(elem(3))
 
 
+# import tree of the generated stylesheets: main imports A then B; A imports A1.  Import precedence (XSLT 2.6.2), lowest first:
+MODS = ["A1", "A", "B", "main"]
+PREC = {m: i + 1 for i, m in enumerate(MODS)}
+
+
 def gen_decls(rng):
     tests = [({"t": "any"}, "*"), ({"t": "name", "uri": [], "local": xdm.cps("a")}, "a"), ({"t": "name", "uri": [], "local": xdm.cps("b")}, "b"),
              ({"t": "name", "uri": [], "local": xdm.cps("c")}, "c")]
     out = []
-    for _ in range(rng.randint(1, 4)):
+    style = rng.random()
+    for _ in range(rng.randint(1, 4) if style < 0.7 else rng.randint(2, 5)):
         k = rng.sample(tests, rng.randint(1, 2))
-        out.append({"strip": rng.random() < 0.65, "tests": k, "imported": rng.random() < 0.25})
+        if style < 0.5:
+            mod = "main" if rng.random() < 0.75 else "A"
+        elif style < 0.7:
+            mod = rng.choice(MODS)
+        else:
+            mod = rng.choice(["A", "B", "A1"])              # conflicts decided among imported modules only
+        out.append({"strip": rng.random() < 0.6, "tests": k, "mod": mod})
     return out
 
 
@@ -64,28 +76,39 @@ def observations():
 
 
 def render(decls, obs):
-    main = ['<xsl:stylesheet version="1.0" %s>' % XSLNS]
-    imp = ['<xsl:stylesheet version="1.0" %s>' % XSLNS]
-    has_imp = any(d["imported"] for d in decls)
-    if has_imp:
-        main.append('<xsl:import href="imp.xsl"/>')
+    """-> {file name: text}; modules without declarations are not imported (unless needed to reach A1)"""
+    used = {d["mod"] for d in decls}
+    if "A1" in used:
+        used.add("A")
+    body = {m: [] for m in MODS}
     for d in decls:
-        el = '<xsl:%s-space elements="%s"/>' % ("strip" if d["strip"] else "preserve", " ".join(t[1] for t in d["tests"]))
-        (imp if d["imported"] else main).append(el)
+        body[d["mod"]].append('<xsl:%s-space elements="%s"/>' % ("strip" if d["strip"] else "preserve", " ".join(t[1] for t in d["tests"])))
+    head = '<xsl:stylesheet version="1.0" %s>' % XSLNS
+    files = {}
+    main = [head] + ['<xsl:import href="%s.xsl"/>' % m for m in ("A", "B") if m in used] + body["main"]
     main.append('<xsl:template match="/"><o><xsl:copy-of select="."/></o><xsl:for-each select="//* | /."><xsl:call-template name="obs"/></xsl:for-each></xsl:template>')
     main.append('<xsl:template name="obs">' + "".join('<xsl:variable name="v%d" select=%s/>' % (i, quoteattr(xpgen.render(e))) for i, e in enumerate(obs)) + '</xsl:template>')
     main.append('</xsl:stylesheet>')
-    imp.append('</xsl:stylesheet>')
-    return "\n".join(main) + "\n", ("\n".join(imp) + "\n") if has_imp else None
+    files["main.xsl"] = "\n".join(main) + "\n"
+    if "A" in used:
+        files["A.xsl"] = "\n".join([head] + (['<xsl:import href="A1.xsl"/>'] if "A1" in used else []) + body["A"] + ['</xsl:stylesheet>']) + "\n"
+    for m in ("B", "A1"):
+        if m in used:
+            files[m + ".xsl"] = "\n".join([head] + body[m] + ['</xsl:stylesheet>']) + "\n"
+    return files
 
 
 def spec_decls(decls):
     out = []
     for d in decls:
         for t in d["tests"]:
-            out.append({"strip": d["strip"] != bool(os.environ.get("VERIF_C13_CORRUPT")), "test": t[0], "prec": 1 if d["imported"] else 2})
-    # imported declarations come first in stylesheet order only for "last wins" among equal precedence: keep order within module
-    return [x for x in out if x["prec"] == 1] + [x for x in out if x["prec"] == 2]
+            out.append({"strip": d["strip"] != bool(os.environ.get("VERIF_C13_CORRUPT")), "test": t[0], "prec": PREC[d["mod"]]})
+    # declaration order within one precedence level is document order of that module ("last wins" among equals)
+    return sorted(out, key=lambda x: x["prec"])
+
+
+def all_xsl(cdir):
+    return {f: open(os.path.join(cdir, f)).read() for f in sorted(os.listdir(cdir)) if f.endswith(".xsl")}
 
 
 def flatten_result(tree):
@@ -119,10 +142,8 @@ def run(res, tier, seed):
         decls = gen_decls(rng)
         obs = rng.sample(allobs, 8)
         cdir = os.path.join(wd, "case%d" % k); os.makedirs(cdir)
-        main, imp = render(decls, obs)
-        open(os.path.join(cdir, "main.xsl"), "w").write(main)
-        if imp:
-            open(os.path.join(cdir, "imp.xsl"), "w").write(imp)
+        for fn_, txt in render(decls, obs).items():
+            open(os.path.join(cdir, fn_), "w").write(txt)
         open(os.path.join(cdir, "in.xml"), "w").write(xdm.render_xml(docs[d]))
         cases.append({"id": k, "dir": cdir, "trace": "none", "select": True})
         metas.append((d, decls, obs))
@@ -145,7 +166,7 @@ def run(res, tier, seed):
             cur.append(ev)
         for c in ch:
             d, decls, obs = metas[c["id"]]
-            sample = {"xsl": open(os.path.join(c["dir"], "main.xsl")).read(), "xml": xdm.render_xml(docs[d])}
+            sample = {"xsl": all_xsl(c["dir"]), "xml": xdm.render_xml(docs[d])}
             evs = by_id.get(c["id"])
             if not evs or evs[-1]["e"] != "Done":
                 res.violation("transformation process died (rc=%s): %s" % (p.returncode, (err or b"").decode()[-300:]), [sample]); continue
@@ -172,7 +193,7 @@ def run(res, tier, seed):
         ev = events[rj["line"]]
         cdir = cases[ev["sample"]]["dir"]
         res.violation("%s at node %s: %s" % (ev.get("text", "copy-of"), ev.get("ctx"), rj["msg"][:250]),
-                      [dict(ev, xsl=open(os.path.join(cdir, "main.xsl")).read(), xml=open(os.path.join(cdir, "in.xml")).read())])
+                      [dict(ev, xsl=all_xsl(cdir), xml=open(os.path.join(cdir, "in.xml")).read())])
     res.notes["dropped"] = st["dropped"]
     res.cov["traces_validated_against_impl"] = len(events) - len(rejects) - st["dropped"]
     # non-trivial: the declarations strip at least one node of the document (decided by the number of nodes in the copy)
@@ -182,7 +203,7 @@ def run(res, tier, seed):
             nt.add(ev["sample"])
     res.cov["distinct_nontrivial"] = len({vlib.canon_hash([e["doc"], e["decls"], e.get("text"), e.get("ctx")]) for e in events if e["sample"] in nt})
     res.cov["rule"] = ("seeded documents (depth <= 3, whitespace-only text before/between/after children and next to comments/PIs) x 1-4 strip/preserve declarations (*, QNames, "
-                       "conflicting, some imported) x 8 of 25 observation expressions evaluated from every element and the root (child/descendant/sibling/following/preceding axes, "
+                       "conflicting, spread over an import tree main > B > A > A1 with conflicts between sibling and nested imports) x 8 of 25 observation expressions evaluated from every element and the root (child/descendant/sibling/following/preceding axes, "
                        "position/last, count, string values, sum, name) + xsl:copy-of of the whole document; non-trivial = the declarations strip at least one node of that document; "
                        "distinct by (document, declarations, observation, context)")
     for ev in [e for e in events if e["e"] == "Obs"][:: max(1, len(events) // 4)][:4]:
